@@ -1,14 +1,16 @@
 (* C07 - the correspondence check of the C07 harness: rule-hash cases (shared with C08), source-hash cases, require /
-   provide cases and path-hasher cases (memo histories, xattr histories), each instantiated with what gotrans
-   regenerated from the source. *)
-From PlzV Require Import Base.Harness Model.C08 Model.C08_Tie Model.C07_Src Model.C07_Provide Model.C07_Hasher.
+   provide cases, path-hasher cases (memo histories, xattr histories) and filegroup-link histories (invocations of the
+   real binary interleaved with edits of a hard-linked source), each instantiated with what gotrans regenerated from
+   the source. *)
+From PlzV Require Import Base.Harness Model.C08 Model.C08_Tie Model.C07_Src Model.C07_Provide Model.C07_Hasher Model.C07_Link.
 From PlzV Require Gen.C07SourceHash Gen.C07Provide Gen.C07Hasher.
 
 Inductive case :=
 | Rule (c : C08.case)
 | Src (c : src_case)
 | Prov (c : prov_case)
-| Hasher (c : hasher_case).
+| Hasher (c : hasher_case)
+| Link (c : link_case).
 
 Definition check (c : case) : bool :=
   match c with
@@ -16,4 +18,5 @@ Definition check (c : case) : bool :=
   | Src c => src_check_with C07SourceHash.prog c
   | Prov c => prov_check_with C07Provide.provide_range c
   | Hasher c => hasher_check_with C07Hasher.memo_guarded C07Hasher.xattr_rule c
+  | Link c => link_check_with lk_same_branch c
   end.
